@@ -81,7 +81,7 @@ def stateful_sweep(run, pid, prefixes, escalate):
     from replay import kalman
 
     # (linear model?, editing threshold, symbols declared with sympy assumptions?)
-    variants = [(True, 3.0, False), (False, 3.0, True)] + ([(True, None, True), (False, 0.5, False)] if escalate else [])
+    variants = [(True, 3.0, False), (False, 3.0, True), (False, None, False)] + ([(True, None, True), (False, 0.5, False)] if escalate else [])
     fails = 0
     for linear, k_edit, assume in variants:
         run.native_runs += 1
